@@ -8,6 +8,10 @@ binding 1 (in process): the pairs are built as go/types values in an injected te
 binding 2 (end to end): a generated multi-package program boxes values of near-miss types and asserts / switches /
           compares them across package boundaries and calls methods through interfaces; compiled by llgo, judged by
           the spec's verdicts (reference toolchain self-validates).
+spec/typeid/MethodSets.tla    interface satisfaction and method reach (vlib/c07m.py)
+spec/typeid/GenericLocal.tla  types produced by generic code: identity generic function, types declared inside generic
+                              functions (directly / in a nested function literal), generic types - over arguments that
+                              mention function-local types (vlib/c07gl.py)
 """
 import json
 import os
@@ -78,6 +82,8 @@ def check(chk):
         chk.cov.pop("_pairs", None)
     from . import c07m
     c07m.run(chk, thorough)
+    from . import c07gl
+    c07gl.run(chk, thorough)
     chk.assumptions += ["go/types values built by the harness faithfully represent the terms (checked by go/types.Identical on every pair)",
                         "descriptor identity at run time is name identity of the emitted weak-ODR symbol (checked end to end on a sample)"]
 
